@@ -225,7 +225,56 @@ def second_compilation_case(ctx, preds, classify):
     ctx.cov["second_compilation_case"] = True
 
 
-def generic_run(ctx, preds, classify, n_quick=300, n_thorough=6000, level="proof", second_compilation=False):
+def after_failed_compilation_case(ctx, preds, classify):
+    """a program whose COMPILATION raises (two different inputs under one name), then a valid program in the same process:
+    the predicates are evaluated on the MIR of the valid one"""
+    import json
+    import os
+    import shutil
+    import tempfile
+    import targeted
+    bad = targeted.prog([targeted.inp("x1", "x", targeted.SI, "P0"), targeted.inp("k", "k", targeted.PI, "P1"),
+                         targeted.inp("x2", "x", targeted.SI, "P1"),
+                         {"k": "bin", "x": "s", "op": "OAdd", "a": "x1", "b": "k"}],
+                        [("o1", "P0", "s"), ("o2", "P1", "x2")], ["dup-input"])
+    good = targeted.prog([targeted.inp("y", "y", targeted.SI, "P2"), targeted.inp("k2", "k", targeted.SI, "P2"),
+                          {"k": "lit", "x": "c", "b": "Int", "v": 3},
+                          {"k": "bin", "x": "t", "op": "OMul", "a": "y", "b": "c"}, {"k": "bin", "x": "u", "op": "OSub", "a": "t", "b": "k2"}],
+                         [("r", "P2", "u")], ["after-failed-compilation"])
+    d = tempfile.mkdtemp(prefix="nadaverif_afterfail_")
+    try:
+        pa, pb = os.path.join(d, "rejected.py"), os.path.join(d, "valid.py")
+        open(pa, "w").write(surface.to_python(bad))
+        open(pb, "w").write(surface.to_python(good))
+        sp = os.path.join(d, "spec.json")
+        json.dump({"steps": [pa], "probe": pb, "timers": False}, open(sp, "w"))
+        rc, out, err, dt = vlib.run([vlib.PY, os.path.join(vlib.VERIF, "tools", "run_history.py"), sp], 180, cwd=d, env=vlib.impl_env())
+    finally:
+        shutil.rmtree(d, ignore_errors=True)
+    ls = [l for l in out.splitlines() if l.startswith("{")]
+    if not ls:
+        raise RuntimeError("after-failed-compilation case: harness failed: " + vlib.clean_noise(err)[-400:])
+    res = json.loads(ls[-1])
+    exprs = list(preds.values())
+    outp, errors = progrun.eval_over_cases(ctx, "after_failed", IMPORTS, [good], [res], exprs)
+    if errors:
+        raise RuntimeError("cases after_failed failed: " + errors[0][1])
+    nbad = 0
+    for name, e in preds.items():
+        if outp[e] or "ok" not in res:
+            nbad += 1
+            key, what = classify(name, good, res)
+            vlib.report_failure(ctx, key + ":after-failed-compilation",
+                                what + " — for a valid program compiled after a program whose compilation raised, in one process",
+                                dict(case=dict(kind="two-programs-one-process", first_program=surface.to_python(bad), second_program=surface.to_python(good),
+                                               first_outcome=res.get("log")),
+                                     observed=(res if "ok" not in res else {k: res["ok"][k] for k in ("inputs", "parties", "literals", "outputs")}),
+                                     how_to_replay="write both programs to files; tools/run_history.py with steps=[rejected.py], probe=valid.py"))
+    ctx.note(f"validate: valid program compiled after a failed compilation in one process: {nbad} predicate(s) violated")
+    ctx.cov["after_failed_compilation_case"] = True
+
+
+def generic_run(ctx, preds, classify, n_quick=300, n_thorough=6000, level="proof", second_compilation=False, after_failed=False):
     """shared body of the program-level checks: extract, prove, validate preds on implementation MIRs, tie the model"""
     import targeted
     ok_x = vlib.step_extract(ctx)
@@ -241,6 +290,8 @@ def generic_run(ctx, preds, classify, n_quick=300, n_thorough=6000, level="proof
             vlib.report_failure(ctx, key, what, replay_payload(progs[i], results[i]))
     if second_compilation:
         second_compilation_case(ctx, preds, classify)
+    if after_failed:
+        after_failed_compilation_case(ctx, {k: v for k, v in preds.items() if "must" not in k}, classify)
     if ok_x:
         dis = tie_model(ctx, progs, results)
         if dis is not None:
